@@ -389,6 +389,41 @@ def zeroPadK (numLen prefixLen fill g : Nat) : Chk (Out Nat) :=
       pure { allocs := [fill], res := .ok ((if isSepAt n g trim then 1 else 0) + (glen - trim) + (numLen - prefixLen)) }
     else .panic
 
+/-! ## filter / test local ids: `codegen.rs: get_local_id` and `vm/mod.rs: get_or_lookup_local`
+
+The code generator hands every distinct filter (test) name of an instruction stream a small id; the
+VM caches the looked-up filter in `loaded_filters: [None; MAX_LOCALS]` under that id.  `!0` (255)
+means "not cached".  A width boundary shared by two files. -/
+
+/-- position of a name in the table (`ids.get(name)`) -/
+def indexOfName : List String → String → Option Nat
+  | [], _ => none
+  | a :: as, n => if a = n then some 0 else (indexOfName as n).map (· + 1)
+
+/-- the sentinel `!0` of `LocalId = u8` -/
+def noLocalId : Nat := 255
+
+/-- `get_local_id`: the ids handed out so far (`ids[i]` = name with id `i`) and the id for `name`;
+    `limit` = `MAX_LOCALS` as the code generator sees it -/
+def getLocalId (limit : Nat) (ids : List String) (name : String) : List String × Nat :=
+  match indexOfName ids name with
+  | some i => (ids, i)
+  | none =>
+    if ids.length ≥ limit then (ids, noLocalId)
+    else (ids ++ [name], ids.length % 256)                       -- `ids.len() as LocalId`
+
+/-- the ids of a sequence of filter applications -/
+def assignLocalIds (limit : Nat) : List String → List String → List Nat
+  | _, [] => []
+  | ids, n :: ns => let r := getLocalId limit ids n; r.2 :: assignLocalIds limit r.1 ns
+
+/-- `get_or_lookup_local(vec, idx, f)` on an array of `slots` entries: `vec.get(idx)` is `None` beyond
+    the array, and then `vec[idx] = Some(val)` is out of bounds -/
+def lookupLocal (slots idx : Nat) : Chk Unit :=
+  if idx = noLocalId then .ok ()
+  else if idx < slots then .ok ()
+  else .panic
+
 /-! ## `value/merge_object.rs: MergeSeq` — the depth of lazily concatenated sequences is bounded -/
 
 /-- a value as far as concatenation is concerned: something else, or a `MergeSeq` with its stored
@@ -452,6 +487,13 @@ def negStepLen (lo hi s : Int) : Chk Nat :=
 /-- `span.end_col += 1` on a `u16` -/
 def widen (startCol endCol : Nat) : Chk Nat :=
   if startCol = endCol then u16N (endCol + 1) else pure endCol
+
+/-- `get_local_id` with the limit check one off (`len > MAX_LOCALS`): the name after the last cached
+    one gets an id one past the VM's array -/
+def getLocalIdGt (limit : Nat) (ids : List String) (name : String) : List String × Nat :=
+  match indexOfName ids name with
+  | some i => (ids, i)
+  | none => if ids.length > limit then (ids, noLocalId) else (ids ++ [name], ids.length % 256)
 
 /-- `revindex0` with plain subtraction (`len - idx - 1`): fine inside the body, underflows on the
     exhausted loop object -/
